@@ -6,7 +6,7 @@ ROOT = os.path.dirname(os.path.dirname(os.path.abspath(__file__)))
 BASELINE = json.load(open("/root/.vp/BASELINE.json"))["cmd"].replace("--junitxml=<file>", "").strip()
 
 CORE_NOTE = ("Trusted base: the projection harness/core.py (reads public API only), TLC, the universe bounds of the "
-             "suites (N<=4 nodes, T=3 frames, catalogue depth), ids identified up to order-preserving renaming in the "
+             "suites (N<=5 nodes, T<=4 frames, catalogue depth), ids identified up to order-preserving renaming in the "
              "catalogue. The design-level result transfers to the code through the per-record refinement check; "
              "a refinement mismatch is reported as DRIFT and lowers the claim to the real-state evaluation alone.")
 
@@ -18,9 +18,9 @@ CLAIMED = {
     "C03": ("model_checking", "TLC exhaustive model check + catalogue replay + TLC trace evaluation of Forest / refusal / removable-edge clauses on real states",
             "All (state, call) pairs of the bounded universe incl. all ordered node pairs as edge endpoints, every track id, force on/off."),
     "C04": ("model_checking", "TLC exhaustive model check + catalogue replay + TLC trace evaluation of TidOK and the frame clause on real states",
-            "Track-id partition recomputed in TLA+ (segments = components after cutting division edges) on every recorded real post / undo / redo state."),
+            "Track-id partition recomputed in TLA+ (segments = components after cutting division edges) on every recorded real post / undo / redo state; construction (call 12: direct / from_tracks / FeatureDict, ids kept or removed) is a modelled call whose result must manage and satisfy the ids."),
     "C05": ("model_checking", "TLC exhaustive model check + catalogue replay + TLC trace evaluation of LidOK and the frame clause on real states",
-            "Lineage partition recomputed in TLA+ (weak components) on every recorded real post / undo / redo state."),
+            "Lineage partition recomputed in TLA+ (weak components) on every recorded real post / undo / redo state, after every modelled construction call, and after construction by import with a consistent / inconsistent source lineage column (Import.tla: LidsOK)."),
     "C06": ("model_checking", "TLC exhaustive model check + catalogue replay + TLC trace evaluation of LookupOK and of the recorded query answers",
             "Lookups (as lists, duplicates visible), get_track_neighbors / has_track_id_at_time for every id and time, next ids; reference answers are graph scans computed in TLA+."),
     "C02": ("model_checking", "TLC model check of the two-stack history against a ghost linear timeline (MCHist.tla); all call sequences up to a length bound "
@@ -36,7 +36,7 @@ CLAIMED = {
             "enable/disable calls interleaved with edits; TLC trace evaluation of reference values, registry, disabled-feature frame clause, KeyError clause and protected keys",
             "Every subset mask of the available keys (plus an unknown key) is fired from every catalogue state of suites that interleave switching with edits; shape features through from-scratch digests."),
     "C11": ("model_checking", "TLC exhaustive model check + catalogue replay + TLC trace evaluation of FullEq(pre, post) and empty emissions on refused calls",
-            "The whole alphabet (enabled or not) is fired from every catalogue state, so every refused (state, call) pair of the universe is covered."),
+            "The whole alphabet (enabled or not) is fired from every catalogue state, so every refused (state, call) pair of the universe is covered, incl. strokes over two time points, custom attribute names, node id 0; lookup dict keys are compared too."),
     "C20": ("model_checking", "TLC exhaustive model check + catalogue replay + TLC trace evaluation of the recorded refresh emissions",
             "Emissions recorded through the public psygnal refresh signal for every call (accepted, refused, nested, forced)."),
 }
@@ -46,7 +46,7 @@ IO_NOTE = ("Trusted base: the IO drivers harness/io_drivers.py / harness/export_
 CLAIMED.update({
     "C12": ("model_checking", "TLA+ model of the import builder pipeline (Import.tla: validate name map -> load -> validate graph -> construct) checked by TLC over all small "
             "tables; the real tracks_from_df run on the same tables; TLC (TraceImport.tla) evaluates faithful-or-ValueError on the real results",
-            "All node tables up to 2 (thorough 3) rows incl. every malformed variant, integer and string ids, three parent-none encodings, renamed columns."),
+            "All node tables up to 2 (thorough 3) rows incl. every malformed variant, integer and string ids, three parent-none encodings, renamed columns, mixed-dtype position columns, source track / lineage columns; all 53,760 name maps of the MapValid.tla universe through validate_name_map and tracks_from_df."),
     "C13": ("model_checking", "TLA+ model of the relabelling double loop (Relabel.tla) checked by TLC; real relabel_segmentation / tracks_from_df(df, segmentation) on all "
             "arrays x injective assignments; TLC compares every output pixel and the shifted graph with the reference",
             "Exhaustive over 2-frame arrays with labels 0..3 and all injective (time, seg id) -> node id assignments over ids 0..3."),
@@ -55,15 +55,15 @@ CLAIMED.update({
             "States come from the TLA+ catalogue (divisions, skip edges, non-contiguous ids after edits), 2D/3D, with/without array, single-key and per-axis positions."),
     "C15": ("model_checking", "catalogue states x EVERY node subset exported by the real CSV / GEFF exporters; TLC recomputes the ancestor closure, induced edges and "
             "masked array from the pre-state",
-            "All subsets of the nodes of each catalogue state; GEFF arrays embedded so that masks straddle the exporter's 64-voxel chunks."),
+            "All subsets of the nodes of each catalogue state; GEFF arrays embedded so that masks straddle the exporter's 64-voxel chunks; 8-bit arrays with track ids beyond 8 bits; overwrite=True into a directory that holds a larger export."),
     "C16": ("model_checking", "catalogue states x every read-only operation on the real object; TLC checks FullEq(before, after) incl. scale, registry, lookups, history",
-            "Full / subset CSV and GEFF export, save, and all queries, from catalogue states with scale None / given, per-axis positions, with/without array."),
+            "Full / subset CSV (raw and display-name headers) and GEFF export, save, and all queries, from catalogue states with scale None / given, per-axis positions, custom attribute names, objects constructed through from_tracks / with recomputed ids, with/without array; the registry is compared with all feature metadata."),
     "C17": ("model_checking", "TLA+ model of the 5-stage inference pipeline (NameMap.tla, difflib scores as a constant table) checked by TLC; real infer_node_name_map on all "
             "ordered column lists; TLC checks partition + exact-key clauses on the real maps and equality with the model's map",
             "All ordered lists of <= 3 (thorough 4) distinct names from a 22-name vocabulary x 2 feature tables x 2 required-key sets."),
     "C18": ("model_checking", "TLA+ model of the add_cand_edges frame loop (CandGraph.tla) checked by TLC; real compute_graph_from_points_list / compute_graph_from_seg; "
             "TLC recomputes nodes, near pairs in consecutive frames and IoU from the inputs",
-            "Every non-empty subset of frames x 3 grid positions (all frame gaps), boundary distances; all 3-frame 1x3 label arrays."),
+            "Every non-empty subset of frames x 3 grid positions (all frame gaps; 5 frames x 2 positions), boundary distances; all 3-frame 1x3 label arrays, also along z with a z scale, 5-frame single-pixel arrays, 16- and 32-bit large labels."),
     "C19": ("model_checking", "TLA+ models of the ensure_unique_labels frame loop (Labels.tla) and of relabelling by track (TrackLabels.tla, TLC enumerates all solution forests); "
             "real functions on the same inputs; TLC evaluates the properties on the real outputs",
             "All label arrays of the universe (empty frames, repeated labels); all binary forests over 3 frames x 2 detections x 4 arrays."),
